@@ -484,6 +484,42 @@ theorem C05_feasible (cfg : Cfg) (hsec : cfg.secStep = id) (m : Nat) (b : FBundl
         rw [hnr] at hcr
         simp at hcr
 
+/-- **C05_budget_lower_bound (the in-loop check `frag_size <= 0` is dead code).** Whenever the
+    pre-check `orig − payload + 3·head(total) ≤ MTU` has passed, the budget of every fragment, at every
+    offset, is at least `head(total)` ≥ 1 octets: `frag_size` is never 0 (nor negative), the loop
+    advances by at least one octet per iteration and terminates. The smallest MTU at which a bundle is
+    fragmented is therefore exactly `orig − payload + 3·head(total)`; one octet below, `_create`
+    raises at the pre-check and nothing is sent (`C05_impossible_sends_nothing`). Whether the in-loop
+    test reads `<= 0` or `< 0` cannot be observed. -/
+theorem C05_budget_lower_bound (cfg : Cfg) (hsec : cfg.secStep = id) (m : Nat) (b : FBundle) (hwf : CrcWf b)
+    (hn : numsOk b = true) (P : Bytes) (hpay : (prepared cfg b).payload = some P)
+    (hfr : isFragment (prepared cfg b).primary.flags = false)
+    (hpre : (prepared cfg b).size - P.length + 3 * headLen P.length ≤ m) :
+    ∀ o, o < P.length →
+      headLen P.length ≤ budget m (headLen P.length) P (prepared cfg b).primary (prepared cfg b).blocks o ∧
+      0 < budget m (headLen P.length) P (prepared cfg b).primary (prepared cfg b).blocks o := by
+  intro o ho
+  have hfl := prep_filled cfg hsec b hwf
+  have hn1 : n1 (prepared cfg b).blocks ≤ 1 := by
+    rw [prep_blocks cfg hsec, n1_map _ fillBlk_num]; exact n1_of_numsOk hn
+  cases hpb : payloadBlk (prepared cfg b).blocks with
+  | none => simp [FBundle.payload, hpb] at hpay
+  | some pb =>
+    have hd : pb.c.btsd = some P := by simpa [FBundle.payload, hpb] using hpay
+    have := emptyFrag_size_le (prepared cfg b) pb P o hfl hfr hn1 hpb hd ho
+    have hp := headLen_pos P.length
+    have hs := size_eq (prepared cfg b)
+    simp only [budget]
+    omega
+
+/-- the boundary on a concrete bundle (size 130, payload 64, head 2): MTU 72 = 130 − 64 + 6 is the
+    smallest that fragments, with budgets ≥ 2; MTU 71 raises at the pre-check and sends nothing -/
+example : (prepared cfgW exB).size - 64 + 3 * headLen 64 = 72
+    ∧ isFrags (create (some 72) (prepared cfgW exB)) = true
+    ∧ (clOutputs cfgW (some 72) exB).all (fun o => decide (o.length ≤ 72)) = true
+    ∧ create (some 71) (prepared cfgW exB) = .raised [] true ∧ clOutputs cfgW (some 71) exB = [] := by
+  refine ⟨by decide +kernel, by decide +kernel, by decide +kernel, by decide +kernel, by decide +kernel⟩
+
 example : ((payloadBlk (prepared cfgW exB).blocks).map (fun x => (x.c.btsd, x.layer))) = some (some (bytesUpTo 64), none)
     ∧ (prepared cfgW exB).size - 64 + 3 * headLen 64 ≤ 90 := by
   constructor <;> decide +kernel
